@@ -114,7 +114,7 @@ def rule_armers(ctx, M, units):
                     # must be in the Ready(Some) region of the poll of the same child
                     ok = False
                     for cp in u.cps:
-                        if common.same_index(u, cp, idx):
+                        if common.same_index(u, cp, idx, s.block):
                             ed = bi.outcome_edges(cp.site, "Ready", "Some")
                             if ed and bi.guarded_by(s.block, ed):
                                 ok = True
